@@ -68,7 +68,23 @@ func NewSession(cfg Cfg) *Session {
 	return s
 }
 
+// wideCompare: the default order of the configuration, with results -5 / 0 / 5.
+func (s *Session) wideCompare() func(a, b interface{}) (int, error) {
+	m := s.marshal
+	if m == nil {
+		m = json.Marshal
+	}
+	def := mast.DefaultKeyCompare(m)
+	return func(a, b interface{}) (int, error) {
+		c, err := def(a, b)
+		return 5 * c, err
+	}
+}
+
 func (s *Session) remoteConfig() *mast.RemoteConfig {
+	if s.keyCompare == nil && s.Cfg.WideCmp {
+		s.keyCompare = s.wideCompare()
+	}
 	return &mast.RemoteConfig{
 		KeysLike:                s.Cfg.KeysLike(),
 		ValuesLike:              s.Cfg.ValuesLike(),
@@ -322,6 +338,12 @@ func (s *Session) Exec(line string) (obs string, viol string) {
 			}
 		case "long":
 			var v LV
+			found, err = m.Get(s.ctx, s.Cfg.Key(k), &v)
+			if found && err == nil {
+				got = s.Cfg.ValNat(v)
+			}
+		case "esc":
+			var v EV
 			found, err = m.Get(s.ctx, s.Cfg.Key(k), &v)
 			if found && err == nil {
 				got = s.Cfg.ValNat(v)
